@@ -244,6 +244,23 @@ theorem C03_pending_fresh (h : Hdr) (es : List Event) (c : Nat) (n : Nat)
   have I := reachable_inv h.init (Inv.initial h.now h.ips h.nc h.burst) es
   exact ⟨I.i4 c n hp, fun c' h' => I.i5 c c' n hp h', (I.i3 c n hp).1, (I.i3 c n hp).2⟩
 
+/-- **challenge_once.**  After EVERY history, the nonces of all phase-2 messages the handler ever accepted
+(ghost list `accepted`, extended in `handleChallengePhase2` exactly when verification succeeds) are pairwise
+distinct, and no challenge that is still pending has been accepted: every challenge is accepted at most once. -/
+theorem C03_challenge_once (h : Hdr) (es : List Event) :
+    (runState h.init es).accepted.Nodup ∧
+    ∀ c n, pend ((runState h.init es).ctl c) = some n → n ∉ (runState h.init es).accepted := by
+  have A := (reachable_invs h.init (Inv.initial h.now h.ips h.nc h.burst) (AccInv.initial h.now h.ips h.nc h.burst) es).2
+  exact ⟨A.a2, A.a1⟩
+
+/-- … and `accepted` really records acceptances: a step extends it only by the nonce that was pending on the
+connection the event arrived on, and that nonce is cleared. -/
+theorem C03_accepted_step (s : Srv) (e : Event) :
+    (step s e).1.accepted = s.accepted ∨
+    ∃ c n, e.conn? = some c ∧ pend (s.ctl c) = some n ∧ (step s e).1.accepted = n :: s.accepted ∧
+      pend ((step s e).1.ctl c) = none :=
+  (stepCore_spec s e).acc
+
 /-! ## Non-vacuity -/
 
 def hdr2 : Hdr := ⟨1000, [0, 1], 2, 20⟩
@@ -255,6 +272,10 @@ example : (run hdr2.init [.hs 0 .control (.idx 0) .none, .hs 0 .control (.idx 0)
 /-- … and installs the connection as A's control channel -/
 example : ((run hdr2.init [.hs 0 .control (.idx 0) .none, .hs 0 .control (.idx 0) (.hmac 0 (.last 0))]).map
     (·.st.lookups)) = [[none, none], [some 0, none]] := by decide
+
+/-- two handshakes are accepted with two different nonces -/
+example : (runState hdr2.init [.hs 0 .control (.idx 0) .none, .hs 0 .control (.idx 0) (.hmac 0 (.last 0)),
+    .hs 1 .control (.idx 1) .none, .hs 1 .control (.idx 1) (.hmac 1 (.last 1))]).accepted = [1, 0] := by decide
 
 /-- a replayed response, a stale challenge, a foreign key and a foreign connection's challenge all fail -/
 example : (run hdr2.init [.hs 0 .control (.idx 0) .none, .hs 0 .control (.idx 0) (.hmac 0 (.last 0)),
